@@ -161,7 +161,7 @@ def build_harness(flavour, harness_src, name=None, with_malloc=False, extra_flag
         if hobj is None:
             return None, log
         link = list(objs) + [hobj]
-        ldflags = ["-pthread", "-ldl"]
+        ldflags = ["-pthread", "-ldl", "-rdynamic"]
         if fl["prelude"]:
             rt, log = rt_object(flavour)
             if rt is None:
